@@ -377,7 +377,7 @@ def run_supervised(sb, argv, plan=None, cwd=None, tag="r", keep_log=True):
             return ""          # redirected away (a device such as /dev/full reads as endless zeros)
         try:
             with open(p, "rb") as f:
-                return f.read().decode("utf-8", "replace")
+                return f.read(16 << 20).decode("utf-8", "replace")
         except OSError:
             return ""
     return Run(summary, rd(errf), rd(outf), logf if keep_log else None, [u(b(a)) for a in argv], plan)
